@@ -54,3 +54,14 @@ Theorem C04_refuted_echo_body :
   wire (T KHeaderOnly [VN 4; VN 2; VN 12; VN 1] []) <> [x04; x02; x00; x0c; x00; x00; x00; x01; xde; xad; xbe; xef].
 Proof. exact echo_body_dropped. Qed.
 Print Assumptions C04_refuted_echo_body.
+
+(* ---- conformant frames that are refused as a whole (known findings D49, D50): a packet-in
+   with 8 bytes of packet data; a port-description multipart reply with one port ---- *)
+Theorem C04_refuted_short_packet_in :
+  parse_top ([x04; x0a; x00; x32; x00; x00; x00; x01] ++ [xff; xff; xff; xff; x00; x08; x00; x00] ++ zeros 8
+             ++ [x00; x01; x00; x0c; x80; x00; x00; x04; x00; x00; x00; x07; x00; x00; x00; x00] ++ zeros 2
+             ++ [x01; x02; x03; x04; x05; x06; x07; x08]) = Err.
+Proof. exact short_packet_in_refused. Qed.
+Theorem C04_refuted_port_desc_reply :
+  parse_top ([x04; x13; x00; x50; x00; x00; x00; x01] ++ [x00; x0d; x00; x00; x00; x00; x00; x00] ++ zeros 64) = Err.
+Proof. exact port_desc_reply_refused. Qed.
